@@ -111,6 +111,9 @@ def nsga2_step(args):
 
     def body(ctx):
         ops.configure(round_grid=False)   # the 1e-7 grid of np.round is irrelevant here (C05 checks the rounding)
+        # should the code key a dict/set on cost values: every symbolic number hashes alike, so that Python falls
+        # back to == (which forks symbolically).  Sound here because every cost in this harness is symbolic.
+        ctx.hash_hook = lambda x: 0
         ec.reset_problem(prob, ctx, faults=bool(faults), max_faults=faults)
         if faults:
             box['reroll'].n = 0
